@@ -254,6 +254,11 @@ def rule_range(ctx, F):
     if fn:
         adds = [pt for pt, c in fn.calls() if callee_name(c) == "ts_query_cursor__add_state"]
         ctx.floor("state creations in ts_query_cursor__advance", len(adds), 2)
+        for nm, pat in (("parent_intersects_range", "ts_node_is_null(parent_node) || range_intersects(_, &self->included_range)"),
+                        ("node_intersects_range", "parent_intersects_range && range_intersects(&node_range, &self->included_range)"),
+                        ("node_within_containing_range", "range_within(&node_range, &self->containing_range)"),
+                        ("node_intersects_containing_range", "range_intersects(&node_range, &self->containing_range)")):
+            bind(fn, nm, pat)
         ctx.gate("R2", fn, adds, [
             ("a match starts only at a node inside the containing range", "node_within_containing_range", True),
             ("…on a visible node", "self->on_visible_node", True),
@@ -263,9 +268,11 @@ def rule_range(ctx, F):
             ("the start depth is within max_start_depth", "start_depth <= self->max_start_depth", True),
             ("the node carries the field the pattern's first step asks for", [("step->field", False), ("field_id == step->field", True)]),
         ], accept_desc="starting a match at this node")
-        for nm, pat in (("node_intersects_range", "parent_intersects_range && range_intersects(&node_range, &self->included_range)"),
+        for nm, pat in (("parent_intersects_range", "ts_node_is_null(parent_node) || range_intersects(_, &self->included_range)"),
+                        ("node_intersects_range", "parent_intersects_range && range_intersects(&node_range, &self->included_range)"),
                         ("node_within_containing_range", "range_within(&node_range, &self->containing_range)"),
                         ("node_intersects_containing_range", "range_intersects(&node_range, &self->containing_range)")):
+            bind(fn, nm, pat)
             d = [x for i in fn.ids_named(nm) for x in fn.defs(i) if x is not None and x.get("k") != "uninit"]
             if d and M(fn).match(pat, d[0]):
                 ctx.ok("R2", "advance:%s-definition" % nm, "%s = %s" % (nm, pat))
